@@ -90,7 +90,13 @@ func init() {
 			key := keys[ki]
 			ds, _ := docSexp(text)
 			c := sx.L(ds, pairsSexp(penv), sx.A(repo), sx.A(fmt.Sprintf("key%d", ki)))
-			before, _ := json.Marshal(p.Steps)
+			// the steps as Go values before anything observes them (deep dump, unexported fields included): signing
+			// may attach signatures and nothing else - also nothing that marshals the same afterwards
+			snapBefore := c19snapshot(p.Steps)
+			var before []byte
+			if p0, err0 := pipeline.Parse(strings.NewReader(text)); err0 == nil || warning.Is(err0) {
+				before, _ = json.Marshal(p0.Steps)
+			}
 			unknown := hasUnknownDeep(p.Steps)
 			var serr error
 			panicked := ""
@@ -165,6 +171,10 @@ func init() {
 				continue
 			}
 			eraseSigs(p.Steps)
+			if snapAfter := c19snapshot(p.Steps); snapAfter != snapBefore {
+				oracleFail("C06", "frame-deep", c, "signing changed the steps beyond attaching signatures (deep comparison of the Go values):\n"+firstDiff(snapBefore, snapAfter))
+				continue
+			}
 			after, _ := json.Marshal(p.Steps)
 			if !bytes.Equal(before, after) {
 				oracleFail("C06", "frame", c, fmt.Sprintf("signing changed more than signatures:\n%s\n%s", before, after))
@@ -178,4 +188,24 @@ func init() {
 			fmt.Fprintf(out, "CASE\tC06\t%s\t%s\t%s\n", sx.String(c), sx.String(sx.L(sx.A("signed"), sigs, sx.B(true))), nt)
 		}
 	}
+}
+
+// firstDiff shows the neighbourhood of the first difference between two dumps
+func firstDiff(a, b string) string {
+	i := 0
+	for i < len(a) && i < len(b) && a[i] == b[i] {
+		i++
+	}
+	lo := i - 200
+	if lo < 0 {
+		lo = 0
+	}
+	hiA, hiB := i+200, i+200
+	if hiA > len(a) {
+		hiA = len(a)
+	}
+	if hiB > len(b) {
+		hiB = len(b)
+	}
+	return "before: ..." + a[lo:hiA] + "\nafter : ..." + b[lo:hiB]
 }
